@@ -158,6 +158,17 @@ def discipline(N: int, k: int, s0: int, s1: int, s2: int, fk: int, fkind: int) -
         def h2_hook(obj: typing.Any, name: str, a: tuple, kw: dict, res: typing.Any) -> None:
             # the shared h2 state machine of a multiplexed connection: its outgoing buffer is drained only by the
             # thread that holds the write lock, its parser is fed only by the thread that holds the read lock
+            if name == "start_next_cycle" and "su" in holder:
+                # HTTP/1.1: the connection is marked IDLE (so another thread may be given it) and its h11 state machine is
+                # made ready for the next exchange in one critical section
+                for c in holder["su"].pool.connections:
+                    inner = getattr(c, "_connection", None)
+                    st = getattr(inner, "_h11_state", None)
+                    if st is not None and native._unwrap(st) is obj:
+                        raw = getattr(getattr(inner, "_state_lock", None), "_lock", None)
+                        if raw is not None and hasattr(raw, "locked") and not raw.locked():
+                            unlocked.append("h11 start_next_cycle() without the connection's state lock")
+                return
             if name not in ("data_to_send", "receive_data") or "su" not in holder:
                 return
             for c in holder["su"].pool.connections:
@@ -219,7 +230,7 @@ def _discipline_run(ct: str, Nc: int, K: typing.Any, steps: list[int], f: int, f
         # dead-locks a back end that looks at the pool (repr) while it closes a stream
         P.check(not d.io_under_lock, "no-network-operation-while-the-pool-lock-is-held",
                 lambda: f"{sig}:io-under-pool-lock:{d.io_under_lock[0]}")
-        P.check(not unlocked, "shared-h2-state-touched-only-under-the-connection's-read/write-lock",
+        P.check(not unlocked, "shared-protocol-state-touched-only-under-the-connection's-locks",
                 lambda: f"{sig}:h2-state:{unlocked[0]}")
         P.check(not d.early_wakeups, "a-waiting-request-is-woken-only-after-its-connection-is-published",
                 lambda: f"{sig}:early-wakeup:{d.early_wakeups[0]}")
@@ -231,3 +242,48 @@ def _discipline_run(ct: str, Nc: int, K: typing.Any, steps: list[int], f: int, f
                         lambda: f"{sig}:internal:{o.kind()}")
             P.check(not isinstance(o.exc, (ValueError, KeyError, IndexError, AssertionError, RuntimeError, vrt.Hang)),
                     "no-corrupted-state-error", lambda: f"{sig}:corrupted:{o.kind()}")
+
+
+
+@harness(
+    "C08", "wakeup_race",
+    quick=[{}],
+    example=dict(t=0, has_t=True),
+    require=("pre-empted-in-clear_connection",),
+    timeout={"quick": 60, "thorough": 60},
+    symbolic="the pool time-out of the waiting request (0, 7 or none)",
+    bounds="one sync PoolRequest on the retry path: the thread is pre-empted inside clear_connection() at the point where the fresh Event object is created, another thread's assignment pass gives the request a connection there; then the request waits",
+    outside="pre-emption at any other line (DESIGN 4: not decidable by this technique here)",
+    stubs=("model threading.Event whose construction is observable (the pre-emption point)",),
+)
+def wakeup_race(t: int, has_t: bool) -> None:
+    """
+    pre: 0 <= t <= 1
+    post: _
+    """
+    from httpcore._sync import connection_pool as spool
+
+    timeout = (0, 7)[ladder(t, 0, 1)] if has_t else None
+    vrt.new_runtime(clock=5)
+    pr = spool.PoolRequest(httpcore.Request("GET", "http://a.test/"))
+    sentinel = object()
+    pr.assign_to_connection(sentinel)  # type: ignore[arg-type]
+    fired: list[int] = []
+
+    def other_thread(ev: typing.Any) -> None:
+        # runs when clear_connection() constructs the replacement Event: the other thread's assignment pass
+        if not fired:
+            fired.append(1)
+            pr.assign_to_connection(sentinel)  # type: ignore[arg-type]
+
+    vrt.ON_THREAD_EVENT_NEW = other_thread
+    try:
+        pr.clear_connection()
+    finally:
+        vrt.ON_THREAD_EVENT_NEW = None
+    if fired:
+        P.cover("pre-empted-in-clear_connection")
+    o = scen.call(pr.wait_for_connection, timeout)
+    # the assignment happened: whichever order the two threads' statements took effect in, the request must not wait for a
+    # wake-up that has already been delivered
+    P.check(o.ok and o.value is sentinel, "no-lost-wake-up-on-the-retry-path", lambda: f"wakeup-race:{o.kind()}")
